@@ -18,6 +18,7 @@ import (
 	"time"
 
 	"github.com/sourcegraph/zoekt"
+	webserverv1 "github.com/sourcegraph/zoekt/grpc/protos/zoekt/webserver/v1"
 	"github.com/sourcegraph/zoekt/index"
 	"github.com/sourcegraph/zoekt/query"
 )
@@ -64,6 +65,8 @@ func vf29sGen(r *vfRand) []vf29sShard {
 			name := fmt.Sprintf("dir/f%d%s", id, r.Pick(exts))
 			if r.Chance(15) {
 				name = fmt.Sprintf("dir%d/needle%s", id, r.Pick(exts))
+			} else if r.Chance(25) {
+				name = fmt.Sprintf("dir/f%d_test%s", id, r.Pick(exts)) // low-priority file: BM25 term frequencies are divided by 5 (possibly to 0)
 			}
 			sh.Docs = append(sh.Docs, vf29sDoc{name, b.String()})
 		}
@@ -104,8 +107,8 @@ func vf29sSearcher(t *testing.T, shards []vf29sShard) *shardedSearcher {
 func vf29sSig(in []zoekt.FileMatch) string {
 	fs := append([]zoekt.FileMatch{}, in...)
 	for i := 0; i < len(fs); {
-		j := i
-		for j < len(fs) && fs[j].Score == fs[i].Score {
+		j := i + 1 // compare bits: NaN != NaN would never advance (a NaN file score is reported by the finiteness oracle)
+		for j < len(fs) && math.Float64bits(fs[j].Score) == math.Float64bits(fs[i].Score) {
 			j++
 		}
 		sort.SliceStable(fs[i:j], func(a, b int) bool {
@@ -142,13 +145,39 @@ func TestVerifC29Search(t *testing.T) {
 		{"needle and hay", query.NewAnd(sub("needle"), sub("hay"))},
 		{"file:needle", &query.Substring{Pattern: "needle", FileName: true}},
 	}
+	// the real API path of a Boost: a proto double (any float64 incl. NaN / +-Inf), converted by query.QFromProto
+	wire := []float64{math.Inf(1), math.NaN(), math.Inf(-1), 1e300, math.MaxFloat64, 0, -2, 1e101, 20}
+	pSub := func(p string) *webserverv1.Q {
+		return &webserverv1.Q{Query: &webserverv1.Q_Substring{Substring: &webserverv1.Substring{Pattern: p}}}
+	}
+	pBoost := func(w float64, c *webserverv1.Q) *webserverv1.Q {
+		return &webserverv1.Q{Query: &webserverv1.Q_Boost{Boost: &webserverv1.Boost{Boost: w, Child: c}}}
+	}
+	for _, w := range wire {
+		pq := &webserverv1.Q{Query: &webserverv1.Q_Or{Or: &webserverv1.Or{Children: []*webserverv1.Q{pBoost(w, pSub("needle")), pSub("stack")}}}}
+		if w == 1e300 { // nested: the product overflows
+			pq = &webserverv1.Q{Query: &webserverv1.Q_Or{Or: &webserverv1.Or{Children: []*webserverv1.Q{pBoost(w, pBoost(w, pSub("needle"))), pSub("stack")}}}}
+		}
+		q, err := query.QFromProto(pq)
+		if err != nil { // a rejected weight is fine too: nothing to rank
+			continue
+		}
+		queries = append(queries, struct {
+			name string
+			q    query.Q
+		}{"proto:" + q.String(), q})
+	}
 	ctx := context.Background()
 	stats := map[string]int{}
 	for i := 0; i < n; i++ {
 		shards := vf29sGen(r)
 		ss := vf29sSearcher(t, shards)
 		for rep := 0; rep < 2; rep++ {
-			q := queries[r.Intn(len(queries))]
+			q := queries[r.Intn(5)]
+			if len(queries) > 5 && r.Chance(45) {
+				q = queries[5+r.Intn(len(queries)-5)]
+				stats["wire-boost"]++
+			}
 			opts := zoekt.SearchOptions{ChunkMatches: r.Bool(), UseBM25Scoring: r.Chance(35), NumContextLines: r.Intn(2)}
 			stream := r.Chance(35)
 			run := func(o zoekt.SearchOptions) []zoekt.FileMatch {
@@ -176,6 +205,9 @@ func TestVerifC29Search(t *testing.T) {
 			}
 			stats[api+"/"+kind]++
 			replay := map[string]any{"shards": shards, "query": q.name, "api": api, "chunk_matches": opts.ChunkMatches, "bm25": opts.UseBM25Scoring}
+			if strings.HasPrefix(q.name, "proto:") {
+				kind += ":wire-boost"
+			}
 			first := run(opts)
 			sig := vf29sSig(first)
 			for k := 0; k < 3; k++ {
@@ -187,39 +219,48 @@ func TestVerifC29Search(t *testing.T) {
 			dbg := opts
 			dbg.DebugScore = true
 			if s2 := vf29sSig(run(dbg)); s2 != sig {
-				vfOracleFail("search:debug-neutrality:scores-or-order-differ", api+": DebugScore=true changed scores or order: "+sig+" vs "+s2, replay)
+				vfOracleFail("search:debug-neutrality:scores-or-order-differ:"+kind, api+": DebugScore=true changed scores or order: "+sig+" vs "+s2, replay)
 			}
 			for _, f := range first {
 				if math.IsNaN(f.Score) || math.IsInf(f.Score, 0) {
-					vfOracleFail("search:finite:file-score", fmt.Sprint(f.Score), replay)
+					vfOracleFail("search:finite:file-score:"+kind, fmt.Sprint(f.Score), replay)
 				}
 				prev := math.Inf(1)
 				for _, m := range f.LineMatches {
-					if m.Score > prev || math.IsNaN(m.Score) || math.IsInf(m.Score, 0) {
-						vfOracleFail("search:order:matches-not-non-increasing", "line matches of "+f.FileName, replay)
+					if math.IsNaN(m.Score) || math.IsInf(m.Score, 0) {
+						vfOracleFail("search:finite:match-score:"+kind, fmt.Sprintf("line match score %v in %s", m.Score, f.FileName), replay)
+					} else if !(prev >= m.Score) {
+						vfOracleFail("search:order:matches-not-non-increasing:"+kind, "line matches of "+f.FileName, replay)
 					}
 					prev = m.Score
 				}
 				prev = math.Inf(1)
 				for _, m := range f.ChunkMatches {
-					if m.Score > prev || math.IsNaN(m.Score) || math.IsInf(m.Score, 0) {
-						vfOracleFail("search:order:matches-not-non-increasing", "chunk matches of "+f.FileName, replay)
+					if math.IsNaN(m.Score) || math.IsInf(m.Score, 0) {
+						vfOracleFail("search:finite:match-score:"+kind, fmt.Sprintf("chunk match score %v in %s", m.Score, f.FileName), replay)
+					} else if !(prev >= m.Score) {
+						vfOracleFail("search:order:matches-not-non-increasing:"+kind, "chunk matches of "+f.FileName, replay)
 					}
 					prev = m.Score
 				}
 			}
 			sorted := func(fs []zoekt.FileMatch) bool {
-				return sort.SliceIsSorted(fs, func(a, b int) bool { return fs[a].Score > fs[b].Score })
+				for a := 1; a < len(fs); a++ {
+					if !(fs[a-1].Score >= fs[a].Score) { // NaN-robust
+						return false
+					}
+				}
+				return true
 			}
 			if !sorted(first) {
 				ok := len(first) > 3
 				if ok {
 					rest := append(append([]zoekt.FileMatch{}, first[:2]...), first[3:]...)
 					e := path.Ext(first[2].FileName)
-					ok = sorted(rest) && e != path.Ext(first[0].FileName) && e != path.Ext(first[1].FileName) && first[2].Score >= first[3].Score*0.9
+					ok = sorted(rest) && e != path.Ext(first[0].FileName) && e != path.Ext(first[1].FileName) && first[2].Score >= first[3].Score*0.9 // (false for NaN)
 				}
 				if !ok {
-					vfOracleFail("search:order:files-not-sorted-beyond-documented-promotion", api+": "+sig, replay)
+					vfOracleFail("search:order:files-not-sorted-beyond-documented-promotion:"+kind, api+": "+sig, replay)
 				}
 				stats["promoted"]++
 			}
